@@ -1,7 +1,7 @@
 """C16 — the experiment's job index lists exactly the jobs of the last completed plan."""
 FUNCS = ["experiment.__enter__", "experiment.__exit__", "Scheduler.aio_submit"]
 LEVEL = "proof"
-LEVEL_TEXT = 'Deductive: experiment.__enter__ takes the lock before touching the index and moves every previous link into the backup; aio_submit links jobs/<relpath> to the job directory; __exit__ removes the backup only in NORMAL mode, without exception and before waiting. Bounded: sequences of real runs ending normally or with an exception; a second process is kept out.'
+LEVEL_TEXT = 'Deductive: experiment.__enter__ takes the lock before touching the index and moves every previous link into the backup; aio_submit links jobs/<relpath> to the job directory; __exit__ removes the backup only in NORMAL mode, without exception and before waiting. Bounded: sequences of real runs ending normally or with an exception; a second process is kept out; jobs clean / orphans on real workspaces read both indexes.'
 TRUSTED = ['kill inside rename; OS lock semantics', 'z3 5.1 / cvc5 1.0.3 / z3 4.8.12 and the VC generator pyvc (validated by seeded changes, pre-fix replays and the CPython replay of counterexamples; not verified)', 'Python semantics of DESIGN 2.3 (mathematical ints and reals, left-to-right evaluation, no monkey-patching, assert not compiled out)', 'heap typing: declared field/parameter classes are assumed on reads and checked on writes in the functions under contract', "contracts of externals and of callees outside the list are assumed; every ('ASSUME', ...) clause is listed in DESIGN section 11"]
 LEVEL_NOTE = 'kill inside rename; OS lock semantics'
 
